@@ -247,6 +247,9 @@ def main(tier):
     except Inconclusive as e:
         rep.ob('unix_time_rational glue', 'inconclusive', detail=str(e))
 
+    from checks import extglue
+    extglue.run_unix_time(rep, st, tier)
+
     # ------------------------------------------------------------------ python get_unix_time: int(picosecond / 1e6) == picosecond // 10**6
     src = open(os.path.join(build.PYPKG, 'digital_rf_hdf5.py')).read()
     tree = ast.parse(src)
@@ -293,8 +296,37 @@ def main(tier):
                    'all 0 <= ps < 1e12', nq, dt, nq, detail=None if okv else 'RNE encoding disagrees with CPython float')
     elif mtxt in ('picosecond // 1000000', 'int(picosecond // 1000000)', 'picosecond // 10 ** 6', 'int(picosecond // 10 ** 6)'):
         rep.ob('python get_unix_time: microsecond is exact integer floor division', 'discharged', 'all ps', 0, 0, 1)
+    elif micro_expr is not None:
+        # any other expression: translate it (and the local assignments it depends on) with the exact float model of E-AST and compare with
+        # floor(ps / 10^6) for every picosecond value, one linear query per binade choice
+        from vlib import astnum
+        x = z3.Int('ps'); t0 = time.time(); nq = 0; bad = None; unk = 0; err = None
+        try:
+            ch = astnum.Choices()
+            for run in ch.runs():
+                cx = astnum.Ctx(run, {'picosecond': x}, {'ps': (0, T12 - 1)})
+                for ln, nm, v in astnum.assignments(fn):
+                    if nm in ('picosecond',): continue
+                    try: cx.env[nm] = astnum.ev(v, cx)
+                    except astnum.Unsupported: pass
+                val = astnum.ev(micro_expr, cx)
+                if isinstance(val, (astnum.LD, astnum.LDC)): raise astnum.Unsupported('microsecond is not an integer expression')
+                r_, m_ = smt.solve([x >= 0, x < T12] + cx.cons, [val != x / 10**6], 60, st); nq += 1
+                if r_ == 'sat': bad = m_[x].as_long(); break
+                if r_ != 'unsat': unk += 1
+        except astnum.Unsupported as e:
+            err = str(e)
+        if bad is not None:
+            body = ('from vlib import build\nimport sys\ndrf = build.load_pkg()\nps = %d\n# a sample whose picosecond part is exactly ps: index ps at 10^12 Hz\n'
+                    'dt, p = drf.get_unix_time(ps, 10**12, 1)\nprint(dt.microsecond, p, ps // 10**6)\nsys.exit(1 if (dt.microsecond != ps // 10**6 or p != ps) else 0)\n' % bad)
+            rep.violation('python get_unix_time microsecond == floor(picosecond / 10^6)', 'C03.py.microsecond', '%s != ps // 10^6 at ps=%d' % (mtxt, bad), replay_body=body,
+                          queries=nq, solver_s=time.time() - t0)
+        elif err or unk:
+            rep.ob('python get_unix_time microsecond', 'inconclusive', detail='microsecond expression %r: %s' % (mtxt, err or '%d queries unknown' % unk))
+        else:
+            rep.ob('python get_unix_time: microsecond expression %s == floor(picosecond / 10^6) (exact float model, per binade)' % mtxt, 'discharged', 'all 0 <= ps < 1e12', nq, time.time() - t0, nq)
     else:
-        rep.ob('python get_unix_time microsecond', 'inconclusive', detail='unrecognised microsecond expression: %r' % mtxt)
+        rep.ob('python get_unix_time microsecond', 'inconclusive', detail='microsecond argument of datetime() not found')
     rep.ob('python get_unix_time: tuple unpack order, datetime argument order, (dt, picosecond) returned',
            'discharged' if (order_ok and tgt_ok and ret_ok) else 'inconclusive', 'syntactic (AST)', 0, 0, 1,
            detail=None if (order_ok and tgt_ok and ret_ok) else 'order_ok=%s tgt_ok=%s ret_ok=%s' % (order_ok, tgt_ok, ret_ok))
